@@ -45,10 +45,12 @@ class QuaHoldList(HoldList[QuaHold], QuaNoteList[QuaHold]):
         df["EndTime"] = df["offset"] + df["length"]
         df = df.drop("length", axis=1)
         df.column += 1
-        return (
+        records = (
             df.astype(dict(offset=int, column=int, EndTime=int))
             .rename(
                 dict(offset="StartTime", column="Lane", keysounds="KeySounds"), axis=1
             )
             .to_dict("records")
         )
+        # A key that only some objects carry (e.g. HitSound) is absent, not NaN, on the others
+        return [{k: v for k, v in r.items() if v == v} for r in records]
